@@ -169,7 +169,8 @@ def watchdog(n: int) -> bool:
     """
     kind = P["kind"]
     v = _base()
-    v["WATCHDOG_TIMEOUT"] = {"int": n, "str": str(n) if False else "30", "none": None, "float": 1.5, "bytes": b"\x00\x1e", "list": [30]}[kind]
+    v["WATCHDOG_TIMEOUT"] = {"int": n, "str": str(n) if False else "30", "none": None, "float": 1.5, "bytes": b"\x00\x1e", "list": [30],
+                             "emptystr": "", "zerofloat": 0.0, "emptylist": [], "emptybytes": b"", "emptydict": {}}[kind]
     return _check(v, kind == "int")
 
 
@@ -305,8 +306,11 @@ def queries(tier, seed):
                     qs.append(Q(f"ip_char/{key[:5]}/{stem}/p{pos}/u{lo}", "ip_char", {"stem": stem, "key": key, "pos": pos, "lo": lo, "hi": hi}, cto=t, pto=t,
                                 what=f"{key}: any single character U+{lo:04X}..U+{hi - 1:04X} inserted at position {pos} of {stem!r}"))
     qs.append(Q("native/ip_shape", "ip_shape", engine="py", cto=60, what="malformed/valid literal table"))
-    for kind in ("int", "str", "none", "float", "bytes", "list"):
-        qs.append(Q(f"watchdog/{kind}", "watchdog", {"kind": kind}, cto=t, pto=t, what=f"WATCHDOG_TIMEOUT of kind {kind} (int: every value)"))
+    for kind in ("int", "str", "none", "float", "bytes", "list", "emptystr", "zerofloat", "emptylist", "emptybytes", "emptydict"):
+        for via in ("converter", "diameter"):
+            qs.append(Q(f"watchdog/{kind}/{via}", "watchdog", {"kind": kind, "via": via}, cto=t, pto=t,
+                        what=f"WATCHDOG_TIMEOUT of kind {kind} (int: every value, 0 and negatives included) through "
+                             f"{'Diameter(config=...) / Config.__init__' if via == 'diameter' else '_convert_config_to_connection_obj'}"))
     for oname in (("identity", "reversed") if tier == "quick" else list(orders)):
         qs.append(Q(f"verbatim/{oname}", "verbatim", {"order": orders[oname]}, cto=t, pto=t, what=f"host names, realm, ports reflected verbatim, key order {oname}"))
         for n_, bad_ in ((0, 0), (1, 0), (2, 0), (2, 1), (1, 2)):
@@ -319,7 +323,7 @@ def queries(tier, seed):
 
 
 BOUNDS = ["MODE: every str of <= 6 chars; TRANSPORT_TYPE: every str of <= 4 chars", "IPv4: every digit of the templated dotted quads; any single "
-          "inserted character at any position of a valid stem; a table of malformed shapes", "WATCHDOG_TIMEOUT: every int, and str/None/float/bytes/list",
+          "inserted character at any position of a valid stem; a table of malformed shapes", "WATCHDOG_TIMEOUT: every int, and str/None/float/bytes/list incl. the falsy values of each kind, through the converter and through Diameter(config=...)",
           "key orders: identity, reversed, rotations, adjacent transpositions (quick: 6 orders)", "YAML: 1..2 (quick) / 3 spec entries"]
 OUTSIDE = ["incomplete configurations (the statement speaks of complete ones)", "booleans as timeout (Python treats them as int)", "non-str IP values",
            "application dicts carrying only one of vendor_id/app_id", "YAML text parsing (yaml.load is stubbed)", "all 12! key orders"]
